@@ -331,6 +331,11 @@ func (t *WeightedMerkleTrie) Rollback() {
 
 // DeleteNodes deletes the nodes from the underlying storage and sets nextDelete to the tempDeleted nodes collected in previous mutations
 func (t *WeightedMerkleTrie) DeleteNodes() error {
+	if t.root != nil && t.root.Dirty() {
+		// Nodes superseded by changes that are not committed yet still belong to the
+		// last committed state: collect nothing until those changes are committed.
+		return nil
+	}
 	if len(t.deleted) > 0 {
 		batcher := t.db.NewBatch()
 		for key := range t.deleted {
